@@ -41,6 +41,11 @@ BATCH = 400
 WILD_FLAGS = ["--threads=1", "--no-fork"]
 
 
+def wild_bin():
+    """The hook-enabled build of /repo; VERIF_WILD_BIN substitutes another build (used to try a fix)."""
+    return os.environ.get("VERIF_WILD_BIN") or build_wild()
+
+
 def word(v):
     """8 little-endian bytes -> int"""
     return sum(b << (8 * i) for i, b in enumerate(v))
@@ -172,7 +177,7 @@ def run_wild_lines(d, obj, name, items):
         it += 1
         p = d / f"{name}.{it}.ld"
         p.write_text("".join(ln for _, ln in pending))
-        r = run_wild([obj, "-T", p, "-o", d / f"{name}.out"] + WILD_FLAGS, timeout=120)
+        r = run_wild([obj, "-T", p, "-o", d / f"{name}.out"] + WILD_FLAGS, timeout=120, wild=wild_bin())
         if r.rc == 0 and not r.timed_out:
             for k, _ in pending:
                 res[k] = ("pass", "")
@@ -253,7 +258,7 @@ def run(ctx):
     undef = [e for e in exprs if e["st"] == "undef"]
     cov["expressions"] = {"total": len(exprs), "valued": len(ok), "divzero": len(divzero), "undefined_in_C": len(undef)}
     log(f"C16: {len(exprs)} expressions ({len(ok)} valued, {len(divzero)} /0, {len(undef)} undefined)")
-    build_wild()
+    wild_bin()
     with scratch("c16") as d:
         obj = asm.write_asm(d, "t", ".globl _start\n.text\n_start:\n" + asm.EXIT_X86)
 
@@ -300,7 +305,7 @@ def run(ctx):
             r = asm.gnu_ld([obj, "-T", p, "-o", d / f"dz{e['id']}.out"])
             if " by zero" not in r.err:
                 raise ToolError(f"spec says division by zero, GNU ld does not: {e['text']}: {r.err[-300:]}")
-            w = run_wild([obj, "-T", p, "-o", d / f"dzw{e['id']}.out"])
+            w = run_wild([obj, "-T", p, "-o", d / f"dzw{e['id']}.out"], wild=wild_bin())
             return w.klass()
 
         dzw = pmap(ld_dz, dz, workers)
@@ -380,7 +385,7 @@ def run(ctx):
         def all_or_nothing(name, batch, valfn):
             p = d / f"{name}.ld"
             p.write_text("".join(eq_line(e, valfn(e)) for e in batch))
-            r = run_wild([obj, "-T", p, "-o", d / f"{name}.out"] + WILD_FLAGS, timeout=120)
+            r = run_wild([obj, "-T", p, "-o", d / f"{name}.out"] + WILD_FLAGS, timeout=120, wild=wild_bin())
             return r.rc == 0 and not r.timed_out
 
         def plain_batch(ib):
@@ -480,7 +485,7 @@ def run(ctx):
         def zero_case(e):
             p = d / f"zero{e['id']}.ld"
             p.write_text("".join(filler) + assert_line(e["text"], f"t{e['id']}"))
-            r = run_wild([obj, "-T", p, "-o", d / f"zero{e['id']}.out"], timeout=60)
+            r = run_wild([obj, "-T", p, "-o", d / f"zero{e['id']}.out"] + WILD_FLAGS, timeout=60, wild=wild_bin())
             m = _ASSERT_RE.search(r.err)
             return e, (r.rc != 0 and m is not None and m.group(2) == f"t{e['id']}"), r
 
